@@ -1,4 +1,1324 @@
+//! C06 — "Sampled challenges are bound to the entire transcript"  (fault enumeration)
+//!
+//! ## What is enumerated
+//! For every challenger configuration of the tier and every state of the C05 product automaton
+//! (native `DuplexChallenger` × real `CircuitChallenger`) reachable within the depth bound over
+//! the alphabet
+//!     op  observe(public base element)      xp  observe_ext(public extension element)
+//!     s   sample                            sx  sample_ext                 b3  sample_bits(3)
+//! the BFS-shortest history reaching the state, followed by one more `sample`, is turned into
+//! a circuit by the REAL `CircuitChallenger` on a REAL `CircuitBuilder`: observed values are
+//! public inputs; every sampled target `t` (base sample, every sampled bit, extension sample)
+//! is made a *public output* `e = K·t` (`mul` by the constant K = 7, `connect` to a fresh
+//! public input). The circuit is compiled by the real `build()`.
+//!
+//! On the honest traces of that circuit EVERY single deviation of a value that the verifier
+//! does not fix is applied (engine E3, `vpe3`), one at a time:
+//!   F2  every witness slot (+1 at its definition, everything downstream recomputed, public
+//!       outputs re-chosen by the prover): observed publics, constants, every permutation
+//!       output (exposed rate limbs and hidden capacity limbs), every decomposition hint
+//!       output (coefficients, bits), every ALU result (length-tagged capacity element, ALU
+//!       recomposition chains), every recompose-row output;
+//!   F4  every input port of every ALU / permutation / recompose row reads value+1 row-locally,
+//!       the row's result is recomputed and propagated;
+//!   F3  every public slot +1 in every row that mentions it, nothing recomputed;
+//!   F1  every cell of the Public table +1 (hook H4), nothing recomputed;
+//!   P   (configurations whose permutation table chains the capacity in-table, D=1): the
+//!       permutation closure deviates on its k-th call in output limb j (every k, every j in
+//!       0..16); the executor chains the deviated output into the next row and everything
+//!       downstream is recomputed — this is the prover "altering / resetting the sponge state
+//!       between two permutations" for the state that never lives in a witness slot;
+//!   H   the honest trace itself (no deviation).
+//! (F1 on permutation / recompose cells cannot change the verdict of this oracle: the Public
+//! table is untouched, so the committed statement stays true — not enumerated.)
+//!
+//! ## Oracle (independent of vpe3's predicate)
+//! The *committed statement* of a trace is what its Public table says: the observed values
+//! (rows of the observed public inputs) and the sampled challenges (rows of the public
+//! outputs, divided by K). The history is replayed on `p3_challenger::DuplexChallenger` with
+//! the committed observed values:
+//!     violation  ⇔  the real prover+verifier ACCEPT the trace
+//!                   ∧ ( some committed sampled challenge ≠ the native one        [challenge!=native]
+//!                     ∨ a committed observed base element is not in the base field
+//!                       (the native transcript of it does not exist)           [observed-not-base-field] )
+//! A deviation that yields a different but consistent statement, or leaves the statement
+//! untouched, is not a violation whatever the verifier says, so by default only deviations
+//! whose committed statement is INCONSISTENT ("candidates") are sent to the prover
+//! (`--opt prove=all` proves every deviation). Cross-check: whenever this oracle reports a
+//! violation of a deviated trace, `vpe3::predicate` must fail too (counted in the evidence).
+//!
+//! ## Keys
+//! `unbound:<family>:<clause>:<class>:<table>:<port role>:<what the deviated value carries>`
+//! — family = permutation packing (d4 | d1perm) + recompose table + coefficient-lookups flag;
+//! never a history, an op index, a limb or a field.
+
+use std::cell::Cell;
+use std::collections::{BTreeMap, HashSet};
+use std::marker::PhantomData;
+use std::sync::Mutex;
+use std::sync::atomic::{AtomicBool, AtomicUsize, Ordering};
+
+use p3_challenger::{CanObserve, CanSample, CanSampleBits, DuplexChallenger, FieldChallenger};
+use p3_circuit::ops::{Op, Poseidon2Config, generate_poseidon2_trace, generate_recompose_trace};
+use p3_circuit::{Circuit, CircuitBuilder, Expr, ExprId, Traces, WitnessId};
+use p3_circuit_prover::TablePacking;
+use p3_field::{BasedVectorSpace, Field, PrimeCharacteristicRing, PrimeField64};
+use p3_recursion::CircuitChallenger;
+use p3_recursion::traits::RecursiveChallenger;
+use p3_symmetric::{CryptographicPermutation, Permutation};
+use vpcore::rayon::prelude::*;
+use vpcore::serde_json::{Value, json};
+use vpcore::{Ctx, Histo, Report, finish, machinery_error, quiet_catch};
+use vpe3::fixture::Definer;
+use vpe3::{Backend, BbD4, Deviation, Fault, Fixture, Inputs, KbD4, KbD5, Port, Verdict};
+
+// =======================================================================================
+// Deviating permutation closure (class P)
+
+thread_local! {
+    /// (call k, output limb j, permutation calls per execution of the circuit)
+    static PLAN: Cell<Option<(usize, usize, usize)>> = const { Cell::new(None) };
+    static CALLS: Cell<usize> = const { Cell::new(0) };
+}
+
+/// The permutation handed to `enable_poseidon2_perm*`: the honest permutation unless a plan is
+/// installed on the calling thread, in which case the k-th call of each execution returns
+/// `perm(x)` with limb j incremented. (The forging executor may execute the circuit several
+/// times to re-choose public outputs; every execution calls every permutation op once, in
+/// order, so the call index is taken modulo the number of permutation ops.)
+#[derive(Clone)]
+struct DevPerm<P>(P);
+
+impl<F: PrimeCharacteristicRing + Clone, P: Permutation<[F; 16]>> Permutation<[F; 16]> for DevPerm<P> {
+    fn permute_mut(&self, x: &mut [F; 16]) {
+        self.0.permute_mut(x);
+        if let Some((k, j, n)) = PLAN.get() {
+            let c = CALLS.get();
+            CALLS.set(c + 1);
+            if c % n.max(1) == k {
+                x[j] += F::ONE;
+            }
+        }
+    }
+}
+impl<F: PrimeCharacteristicRing + Clone, P: CryptographicPermutation<[F; 16]>> CryptographicPermutation<[F; 16]>
+    for DevPerm<P>
+{
+}
+
+// =======================================================================================
+// Configurations
+
+type Bb = p3_baby_bear::BabyBear;
+type Kb = p3_koala_bear::KoalaBear;
+
+/// A vpe3 backend + what the challenger needs: the native permutation, a builder with the
+/// (deviation-capable) permutation table and optionally the recompose tables, the matching
+/// `CircuitChallenger`.
+trait Cfg: Backend {
+    type Perm: CryptographicPermutation<[Self::BF; 16]> + Clone + Send + Sync + 'static;
+    /// packing degree of the permutation table (4: capacity travels through witness slots;
+    /// 1: capacity is chained inside the table)
+    const PERM_D: usize;
+    fn perm() -> Self::Perm;
+    fn builder(recompose: bool) -> CircuitBuilder<Self::EF>;
+    fn challenger() -> CircuitChallenger<16, 8, Poseidon2Config>;
+}
+
+impl Cfg for KbD4 {
+    type Perm = p3_koala_bear::Poseidon2KoalaBear<16>;
+    const PERM_D: usize = 4;
+    fn perm() -> Self::Perm {
+        p3_koala_bear::default_koalabear_poseidon2_16()
+    }
+    fn builder(recompose: bool) -> CircuitBuilder<Self::EF> {
+        let mut b = CircuitBuilder::<Self::EF>::new();
+        b.enable_poseidon2_perm::<p3_poseidon2_circuit_air::KoalaBearD4Width16, _>(
+            generate_poseidon2_trace::<Self::EF, p3_poseidon2_circuit_air::KoalaBearD4Width16>,
+            DevPerm(Self::perm()),
+        );
+        if recompose {
+            b.enable_recompose::<Kb>(generate_recompose_trace::<Kb, Self::EF>);
+        }
+        b
+    }
+    fn challenger() -> CircuitChallenger<16, 8, Poseidon2Config> {
+        CircuitChallenger::<16, 8, Poseidon2Config>::new_koalabear()
+    }
+}
+
+impl Cfg for BbD4 {
+    type Perm = p3_baby_bear::Poseidon2BabyBear<16>;
+    const PERM_D: usize = 4;
+    fn perm() -> Self::Perm {
+        p3_baby_bear::default_babybear_poseidon2_16()
+    }
+    fn builder(recompose: bool) -> CircuitBuilder<Self::EF> {
+        let mut b = CircuitBuilder::<Self::EF>::new();
+        b.enable_poseidon2_perm::<p3_poseidon2_circuit_air::BabyBearD4Width16, _>(
+            generate_poseidon2_trace::<Self::EF, p3_poseidon2_circuit_air::BabyBearD4Width16>,
+            DevPerm(Self::perm()),
+        );
+        if recompose {
+            b.enable_recompose::<Bb>(generate_recompose_trace::<Bb, Self::EF>);
+        }
+        b
+    }
+    fn challenger() -> CircuitChallenger<16, 8, Poseidon2Config> {
+        CircuitChallenger::<16, 8, Poseidon2Config>::new_babybear()
+    }
+}
+
+impl Cfg for KbD5 {
+    type Perm = p3_koala_bear::Poseidon2KoalaBear<16>;
+    const PERM_D: usize = 1;
+    fn perm() -> Self::Perm {
+        p3_koala_bear::default_koalabear_poseidon2_16()
+    }
+    fn builder(recompose: bool) -> CircuitBuilder<Self::EF> {
+        let mut b = CircuitBuilder::<Self::EF>::new();
+        b.enable_poseidon2_perm_base::<p3_poseidon2_circuit_air::KoalaBearD1Width16, _>(
+            generate_poseidon2_trace::<Self::EF, p3_poseidon2_circuit_air::KoalaBearD1Width16>,
+            p3_test_utils::LiftPermToQuintic::<Kb, _, 16>::new(DevPerm(Self::perm())),
+        );
+        if recompose {
+            b.enable_recompose::<Kb>(generate_recompose_trace::<Kb, Self::EF>);
+        }
+        b
+    }
+    fn challenger() -> CircuitChallenger<16, 8, Poseidon2Config> {
+        CircuitChallenger::<16, 8, Poseidon2Config>::new_koalabear_base()
+    }
+}
+
+// =======================================================================================
+// Alphabet, histories
+
+#[derive(Clone, Copy, PartialEq, Eq, Hash, Debug)]
+enum Act {
+    Obs,
+    ObsExt,
+    Sample,
+    SampleExt,
+    Bits3,
+}
+const ALPHABET: [Act; 5] = [Act::Obs, Act::Sample, Act::ObsExt, Act::SampleExt, Act::Bits3];
+
+impl Act {
+    fn token(&self) -> &'static str {
+        match self {
+            Act::Obs => "op",
+            Act::ObsExt => "xp",
+            Act::Sample => "s",
+            Act::SampleExt => "sx",
+            Act::Bits3 => "b3",
+        }
+    }
+    fn parse(t: &str) -> Option<Act> {
+        Some(match t {
+            "op" => Act::Obs,
+            "xp" => Act::ObsExt,
+            "s" => Act::Sample,
+            "sx" => Act::SampleExt,
+            "b3" => Act::Bits3,
+            _ => return None,
+        })
+    }
+}
+fn show(h: &[Act]) -> String {
+    h.iter().map(|a| a.token()).collect::<Vec<_>>().join(",")
+}
+fn parse_hist(s: &str) -> Option<Vec<Act>> {
+    if s.is_empty() {
+        return Some(vec![]);
+    }
+    s.split(',').map(Act::parse).collect()
+}
+
+/// What a public input of the circuit is.
+#[derive(Clone, Copy, Debug, PartialEq, Eq)]
+enum Role {
+    /// observed base element of step k
+    Obs,
+    /// observed extension element of step k
+    ObsExt,
+    /// K · (sampled value): base sample / extension sample / bit i
+    Out,
+}
+
+/// The tagging constant of public outputs.
+const K: u64 = 7;
+
+fn tag_value<BF: PrimeField64>(seed: u64, k: usize, j: usize) -> BF {
+    // non-zero, pairwise distinct for k < 60, j < 8, far from the small integers the challenger
+    // itself uses (0, length tags 1..=8); VERIF_SEED only rotates the values.
+    BF::from_u64(1000 + 97 * k as u64 + 11 * j as u64 + 7919 * (seed % 997))
+}
+
+fn emb<B: Backend>(x: B::BF) -> B::EF {
+    B::EF::from(x)
+}
+
+struct Replayed<B: Backend> {
+    /// canonical key of the C05 automaton state after the history
+    key: String,
+    circuit: Option<Circuit<B::EF>>,
+    publics: Vec<B::EF>,
+    roles: Vec<Role>,
+    native_perms: usize,
+}
+
+type RC<B> = dyn RecursiveChallenger<<B as Backend>::BF, <B as Backend>::EF>;
+
+/// Replays `hist` on the native challenger (to learn the honest public values) and on the real
+/// `CircuitChallenger` (to build the circuit); computes the C05 canonical state key.
+fn replay<B: Cfg>(hist: &[Act], rc: bool, ctl: bool, seed: u64, build: bool) -> Result<Replayed<B>, String> {
+    let _ = PhantomData::<RC<B>>;
+    let mut nat = DuplexChallenger::<B::BF, B::Perm, 16, 8>::new(B::perm());
+    let mut b = B::builder(rc);
+    if ctl {
+        b.set_recompose_coeff_ctl_for_decompose_links(true);
+    }
+    let mut cc = B::challenger();
+    let mut publics: Vec<B::EF> = vec![];
+    let mut roles: Vec<Role> = vec![];
+    let mut native_perms = 0usize;
+    let mut sample_ext_seen = false;
+    let kc_val = emb::<B>(B::BF::from_u64(K));
+    let mut kc: Option<ExprId> = None;
+    let mut expose = |b: &mut CircuitBuilder<B::EF>,
+                      publics: &mut Vec<B::EF>,
+                      roles: &mut Vec<Role>,
+                      t: ExprId,
+                      v: B::EF| {
+        let k = *kc.get_or_insert_with(|| b.define_const(kc_val));
+        let y = b.mul(t, k);
+        let e = b.public_input();
+        b.connect(y, e);
+        publics.push(v * kc_val);
+        roles.push(Role::Out);
+    };
+    for (step, a) in hist.iter().enumerate() {
+        let before = nat.sponge_state;
+        match a {
+            Act::Obs => {
+                let v = tag_value::<B::BF>(seed, step, 0);
+                nat.observe(v);
+                let t = b.public_input();
+                publics.push(emb::<B>(v));
+                roles.push(Role::Obs);
+                RecursiveChallenger::<B::BF, B::EF>::observe(&mut cc, &mut b, t);
+            }
+            Act::ObsExt => {
+                let v = B::EF::from_basis_coefficients_fn(|j| tag_value::<B::BF>(seed, step, j + 1));
+                nat.observe_algebra_element(v);
+                let t = b.public_input();
+                publics.push(v);
+                roles.push(Role::ObsExt);
+                RecursiveChallenger::<B::BF, B::EF>::observe_ext(&mut cc, &mut b, t);
+            }
+            Act::Sample => {
+                let exp: B::BF = nat.sample();
+                let t = RecursiveChallenger::<B::BF, B::EF>::sample(&mut cc, &mut b);
+                expose(&mut b, &mut publics, &mut roles, t, emb::<B>(exp));
+            }
+            Act::SampleExt => {
+                let exp: B::EF = nat.sample_algebra_element();
+                sample_ext_seen = true;
+                let t = RecursiveChallenger::<B::BF, B::EF>::sample_ext(&mut cc, &mut b);
+                expose(&mut b, &mut publics, &mut roles, t, exp);
+            }
+            Act::Bits3 => {
+                let exp: usize = nat.sample_bits(3);
+                let ts = RecursiveChallenger::<B::BF, B::EF>::sample_bits(&mut cc, &mut b, 3)
+                    .map_err(|e| format!("sample_bits: {e:?}"))?;
+                if ts.len() != 3 {
+                    return Err(format!("sample_bits(3) returned {} targets", ts.len()));
+                }
+                for (i, t) in ts.into_iter().enumerate() {
+                    expose(&mut b, &mut publics, &mut roles, t, B::EF::from_bool((exp >> i) & 1 == 1));
+                }
+            }
+        }
+        if nat.sponge_state != before {
+            native_perms += 1;
+        }
+    }
+    // canonical key, exactly the C05 key (see harness/c05: buffer lengths on both sides, flags,
+    // const-ness masks of the state / buffer targets, capped permutation count, sample_ext bit)
+    let (cs, ci, co, init, dup) = cc.verif_snapshot();
+    let is_const: Vec<bool> = b.verif_snapshot().0.iter().map(|n| matches!(n, Expr::Const(_))).collect();
+    let mask = |ts: &[ExprId]| -> String {
+        ts.iter()
+            .map(|t| if is_const.get(t.0 as usize).copied().unwrap_or(false) { 'c' } else { 'w' })
+            .collect()
+    };
+    let key = format!(
+        "n{}:{} c{}:{} st{} i{} d{} m{}/{}/{} p{} e{}",
+        nat.input_buffer.len(),
+        nat.output_buffer.len(),
+        ci.len(),
+        co.len(),
+        cs.len(),
+        init as u8,
+        dup as u8,
+        mask(&cs),
+        mask(&ci),
+        mask(&co),
+        native_perms.min(3),
+        sample_ext_seen as u8
+    );
+    let circuit = if build { Some(b.build().map_err(|e| format!("build: {e:?}"))?) } else { None };
+    Ok(Replayed { key, circuit, publics, roles, native_perms })
+}
+
+// =======================================================================================
+// Oracle
+
+#[derive(Clone, Debug)]
+struct Judgement {
+    /// None = the committed statement is consistent with the native transcript
+    clause: Option<&'static str>,
+    detail: String,
+    /// the committed publics differ from the honest ones
+    observed_changed: bool,
+    sampled_changed: bool,
+}
+
+fn fu<BF: PrimeField64>(x: &BF) -> u64 {
+    x.as_canonical_u64()
+}
+fn show_ef<B: Backend>(x: &B::EF) -> String {
+    let c: Vec<u64> = x.as_basis_coefficients_slice().iter().map(fu).collect();
+    format!("{c:?}")
+}
+
+/// The C06 oracle on the Public table of `traces`.
+fn judge<B: Cfg>(
+    hist: &[Act],
+    roles: &[Role],
+    pub_row: &[usize],
+    honest_publics: &[B::EF],
+    traces: &Traces<B::EF>,
+) -> Result<Judgement, String> {
+    let committed: Vec<B::EF> = pub_row
+        .iter()
+        .map(|r| traces.public_trace.values.get(*r).copied().ok_or("public row missing"))
+        .collect::<Result<_, _>>()?;
+    let kc = emb::<B>(B::BF::from_u64(K));
+    let kinv = kc.try_inverse().ok_or("K not invertible")?;
+    let mut nat = DuplexChallenger::<B::BF, B::Perm, 16, 8>::new(B::perm());
+    let mut pos = 0usize;
+    let mut mismatch: Option<String> = None;
+    let mut non_base: Option<String> = None;
+    let mut next = |want: Role| -> Result<(usize, B::EF), String> {
+        let p = pos;
+        if roles.get(p) != Some(&want) {
+            return Err(format!("public {p} is not {want:?}"));
+        }
+        pos += 1;
+        Ok((p, committed[p]))
+    };
+    for (step, a) in hist.iter().enumerate() {
+        match a {
+            Act::Obs => {
+                let (p, v) = next(Role::Obs)?;
+                let c = v.as_basis_coefficients_slice();
+                if c[1..].iter().any(|x| !x.is_zero()) && non_base.is_none() {
+                    non_base = Some(format!(
+                        "step {step}: committed observed value (public {p}) {} is not a base-field element",
+                        show_ef::<B>(&v)
+                    ));
+                }
+                nat.observe(c[0]);
+            }
+            Act::ObsExt => {
+                let (_, v) = next(Role::ObsExt)?;
+                nat.observe_algebra_element(v);
+            }
+            Act::Sample => {
+                let exp: B::BF = nat.sample();
+                let (p, v) = next(Role::Out)?;
+                if v != emb::<B>(exp) * kc && mismatch.is_none() {
+                    mismatch = Some(format!(
+                        "step {step} sample: committed challenge (public {p} / {K}) {} but native({}) = {}",
+                        show_ef::<B>(&(v * kinv)),
+                        "committed observations",
+                        fu(&exp)
+                    ));
+                }
+            }
+            Act::SampleExt => {
+                let exp: B::EF = nat.sample_algebra_element();
+                let (p, v) = next(Role::Out)?;
+                if v != exp * kc && mismatch.is_none() {
+                    mismatch = Some(format!(
+                        "step {step} sample_ext: committed challenge (public {p} / {K}) {} but native = {}",
+                        show_ef::<B>(&(v * kinv)),
+                        show_ef::<B>(&exp)
+                    ));
+                }
+            }
+            Act::Bits3 => {
+                let exp: usize = nat.sample_bits(3);
+                for i in 0..3 {
+                    let (p, v) = next(Role::Out)?;
+                    if v != B::EF::from_bool((exp >> i) & 1 == 1) * kc && mismatch.is_none() {
+                        mismatch = Some(format!(
+                            "step {step} sample_bits(3): committed bit {i} (public {p} / {K}) {} but native bits = {exp:03b}",
+                            show_ef::<B>(&(v * kinv))
+                        ));
+                    }
+                }
+            }
+        }
+    }
+    if pos != roles.len() {
+        return Err("public inputs left over".into());
+    }
+    let mut observed_changed = false;
+    let mut sampled_changed = false;
+    for (p, r) in roles.iter().enumerate() {
+        if committed[p] != honest_publics[p] {
+            match r {
+                Role::Out => sampled_changed = true,
+                _ => observed_changed = true,
+            }
+        }
+    }
+    let (clause, detail) = match (non_base, mismatch) {
+        (Some(d), _) => (Some("observed-not-base-field"), d),
+        (None, Some(d)) => (Some("challenge!=native"), d),
+        (None, None) => (None, String::new()),
+    };
+    Ok(Judgement { clause, detail, observed_changed, sampled_changed })
+}
+
+// =======================================================================================
+// Deviations
+
+#[derive(Clone, Debug, PartialEq)]
+enum Dev {
+    Honest,
+    Fault(Fault),
+    Perm { call: usize, limb: usize },
+}
+impl Dev {
+    fn to_json(&self) -> Value {
+        match self {
+            Dev::Honest => json!({"kind": "honest"}),
+            Dev::Fault(f) => json!({"kind": "fault", "fault": f.to_json()}),
+            Dev::Perm { call, limb } => json!({"kind": "perm", "call": call, "limb": limb}),
+        }
+    }
+    fn from_json(v: &Value) -> Option<Dev> {
+        Some(match v.get("kind")?.as_str()? {
+            "honest" => Dev::Honest,
+            "fault" => Dev::Fault(Fault::from_json(v.get("fault")?)?),
+            "perm" => Dev::Perm {
+                call: v.get("call")?.as_u64()? as usize,
+                limb: v.get("limb")?.as_u64()? as usize,
+            },
+            _ => return None,
+        })
+    }
+}
+
+#[derive(Clone, Debug)]
+enum Status {
+    /// forged traces equal the honest traces
+    Noop,
+    /// the deviation cannot be carried out (executor refused / division by zero)
+    Inapplicable(String),
+    /// committed statement consistent with the native transcript: verdict irrelevant, not proved
+    ConsistentNotProved,
+    Proved(Verdict),
+}
+
+struct Eval {
+    class: String,
+    table: String,
+    role: String,
+    prov: String,
+    status: Status,
+    j: Option<Judgement>,
+    pred_fails: Option<bool>,
+    pred_txt: String,
+}
+impl Eval {
+    fn candidate(&self) -> bool {
+        self.j.as_ref().is_some_and(|j| j.clause.is_some())
+    }
+    fn accepted(&self) -> bool {
+        matches!(&self.status, Status::Proved(v) if v.accepted())
+    }
+    fn violation(&self) -> bool {
+        self.candidate() && self.accepted()
+    }
+    fn outcome(&self) -> String {
+        let c = if self.candidate() { "UNBOUND-CANDIDATE" } else { "consistent" };
+        match &self.status {
+            Status::Noop => "noop(trace unchanged)".into(),
+            Status::Inapplicable(_) => "inapplicable".into(),
+            Status::ConsistentNotProved => "consistent(not proved)".into(),
+            Status::Proved(v) => format!("{c} -> {}", v.short()),
+        }
+    }
+    fn to_json(&self) -> Value {
+        json!({
+            "class": self.class, "table": self.table, "role": self.role, "carries": self.prov,
+            "outcome": self.outcome(),
+            "verdict": match &self.status { Status::Proved(v) => v.long(), other => format!("{other:?}") },
+            "oracle_clause": self.j.as_ref().and_then(|j| j.clause),
+            "oracle_detail": self.j.as_ref().map(|j| j.detail.clone()),
+            "vpe3_predicate": self.pred_txt,
+        })
+    }
+}
+
+/// One (configuration, history) with its validated fixture.
+struct Fx<B: Cfg> {
+    family: String,
+    cfg_name: String,
+    rc: bool,
+    ctl: bool,
+    seed: u64,
+    /// history including the final `sample`
+    hist: Vec<Act>,
+    fx: Fixture<B>,
+    roles: Vec<Role>,
+    pub_row: Vec<usize>,
+    /// indices into `circuit.ops` of the permutation rows, in execution order
+    perm_ops: Vec<usize>,
+    prove_all: bool,
+}
+
+trait DynFx: Send + Sync {
+    fn devs(&self, units: &[usize]) -> Vec<Dev>;
+    fn eval(&self, d: &Dev) -> Eval;
+    fn key(&self, e: &Eval) -> String;
+    fn what(&self, d: &Dev, e: &Eval) -> String;
+    fn replay_json(&self, d: &Dev) -> Value;
+    fn describe(&self) -> Value;
+    fn hist_len(&self) -> usize;
+    fn degree(&self) -> usize;
+    fn label(&self) -> String;
+    fn family(&self) -> &str;
+}
+
+fn alu_kind_name(k: p3_circuit::AluOpKind) -> &'static str {
+    use p3_circuit::AluOpKind as A;
+    match k {
+        A::Add => "Add",
+        A::Mul => "Mul",
+        A::BoolCheck => "BoolCheck",
+        A::MulAdd => "MulAdd",
+        A::HornerAcc => "HornerAcc",
+    }
+}
+
+impl<B: Cfg> Fx<B> {
+    fn new(cfg_name: &str, hist: &[Act], rc: bool, ctl: bool, seed: u64, prove_all: bool) -> Result<Self, String> {
+        let r = replay::<B>(hist, rc, ctl, seed, true)?;
+        let circuit = r.circuit.ok_or("no circuit")?;
+        // public position -> row of the Public table (rows are the Public ops in op order)
+        let mut pub_row = vec![usize::MAX; r.publics.len()];
+        let mut row = 0usize;
+        let mut perm_ops = vec![];
+        let pos_type = vpe3::backend::poseidon_op_type::<B>();
+        for (oi, op) in circuit.ops.iter().enumerate() {
+            match op {
+                Op::Public { public_pos, .. } => {
+                    if *public_pos < pub_row.len() {
+                        pub_row[*public_pos] = row;
+                    }
+                    row += 1;
+                }
+                Op::NonPrimitiveOpWithExecutor { executor, .. } => {
+                    if Some(executor.op_type()) == pos_type.as_ref() {
+                        perm_ops.push(oi);
+                    }
+                }
+                _ => {}
+            }
+        }
+        if pub_row.iter().any(|r| *r == usize::MAX) {
+            return Err("a public input has no row in the Public table".into());
+        }
+        if perm_ops.len() != r.native_perms {
+            return Err(format!(
+                "circuit has {} permutation rows, the native transcript permutes {} times",
+                perm_ops.len(),
+                r.native_perms
+            ));
+        }
+        let family = format!(
+            "{}{}{}",
+            if B::PERM_D == 1 { "d1perm".to_string() } else { format!("d{}", B::PERM_D) },
+            if rc { "+recompose" } else { "" },
+            if ctl { "+coeffctl" } else { "" }
+        );
+        let name = format!("{cfg_name}[{}]", show(hist));
+        let fx = Fixture::<B>::new(
+            &name,
+            circuit,
+            Inputs { public: r.publics, private: vec![], siblings: vec![] },
+            TablePacking::default(),
+        )?;
+        let me = Fx {
+            family,
+            cfg_name: cfg_name.to_string(),
+            rc,
+            ctl,
+            seed,
+            hist: hist.to_vec(),
+            fx,
+            roles: r.roles,
+            pub_row,
+            perm_ops,
+            prove_all,
+        };
+        // the honest statement must be consistent unless the repository is broken (then the
+        // honest evaluation reports it); the oracle itself must be evaluable
+        me.judge(&me.fx.honest)?;
+        Ok(me)
+    }
+
+    fn judge(&self, t: &Traces<B::EF>) -> Result<Judgement, String> {
+        match quiet_catch(|| judge::<B>(&self.hist, &self.roles, &self.pub_row, &self.fx.inputs.public, t)) {
+            Ok(r) => r,
+            Err(p) => Err(format!("oracle panicked: {p}")),
+        }
+    }
+
+    /// What the value of a slot is, in challenger terms (part of violation keys).
+    fn prov(&self, slot: u32, depth: usize) -> String {
+        if depth > 6 {
+            return "…".into();
+        }
+        let ops = &self.fx.circuit.ops;
+        match self.fx.definers.get(slot as usize).cloned().flatten() {
+            None => "undefined".into(),
+            Some(Definer::PublicInput) => {
+                match self.fx.circuit.public_rows.iter().position(|s| s.0 == slot).and_then(|p| self.roles.get(p)) {
+                    Some(Role::Obs) => "observed".into(),
+                    Some(Role::ObsExt) => "observed-ext".into(),
+                    Some(Role::Out) => "sample-out".into(),
+                    None => "public?".into(),
+                }
+            }
+            Some(Definer::PrivateInput) => "private".into(),
+            Some(Definer::Const(_)) => "const".into(),
+            Some(Definer::Rewrite) => "rewrite".into(),
+            Some(Definer::Hint(oi)) => match &ops[oi] {
+                Op::Hint { inputs, outputs, .. } => {
+                    let kind = if B::D > 1 && outputs.len() == B::D { "coeff" } else { "bit" };
+                    let inner = inputs.first().map(|s| self.prov(s.0, depth + 1)).unwrap_or_default();
+                    format!("{kind}-of({inner})")
+                }
+                _ => "hint?".into(),
+            },
+            Some(Definer::Alu(oi, _)) => match &ops[oi] {
+                Op::Alu { kind, .. } => format!("alu.{}", alu_kind_name(*kind)),
+                _ => "alu?".into(),
+            },
+            Some(Definer::Npo(oi, g, exposed)) => match &ops[oi] {
+                Op::NonPrimitiveOpWithExecutor { executor, .. } => {
+                    let t = executor.op_type().as_str().to_string();
+                    if t.starts_with("recompose") {
+                        "recomposed".into()
+                    } else {
+                        let rate = B::poseidon_config().map(|c| c.rate_ext()).unwrap_or(0);
+                        format!(
+                            "{}-out[{}]",
+                            if g < rate { "rate" } else { "capacity" },
+                            if exposed { "bus" } else { "hidden" }
+                        )
+                    }
+                }
+                _ => "npo?".into(),
+            },
+        }
+    }
+
+    fn port_slot(&self, op: usize, port: Port) -> Option<WitnessId> {
+        match self.fx.circuit.ops.get(op)? {
+            Op::Alu { a, b, c, out, intermediate_out, .. } => match port {
+                Port::A => Some(*a),
+                Port::B => Some(*b),
+                Port::C => *c,
+                Port::Out => Some(*out),
+                Port::Acc => *intermediate_out,
+                Port::In(..) => None,
+            },
+            Op::NonPrimitiveOpWithExecutor { inputs, .. } => match port {
+                Port::In(g, e) => inputs.get(g)?.get(e).copied(),
+                _ => None,
+            },
+            _ => None,
+        }
+    }
+
+    /// (class, table, role, carried value) of a deviation.
+    fn site(&self, d: &Dev) -> (String, String, String, String) {
+        match d {
+            Dev::Honest => ("H".into(), "-".into(), "-".into(), "-".into()),
+            Dev::Perm { limb, .. } => {
+                let t = vpe3::backend::poseidon_op_type::<B>()
+                    .map(|t| vpe3::backend::key_table(t.as_str()))
+                    .unwrap_or_default();
+                let prov = format!("{}-out[closure]", if *limb < 8 { "rate" } else { "capacity" });
+                ("P".into(), t, "output-limb".into(), prov)
+            }
+            Dev::Fault(f) => {
+                let s = self.fx.site(f);
+                let prov = match f {
+                    Fault::F2 { slot, .. } | Fault::F3 { slot, .. } => self.prov(*slot, 0),
+                    Fault::F4 { op, port, .. } => {
+                        self.port_slot(*op, *port).map(|s| self.prov(s.0, 0)).unwrap_or_else(|| "?".into())
+                    }
+                    Fault::F1 { row, .. } => self
+                        .fx
+                        .honest
+                        .public_trace
+                        .index
+                        .get(*row)
+                        .map(|s| self.prov(s.0, 0))
+                        .unwrap_or_else(|| "padding".into()),
+                    Fault::F2Sibling { .. } => "sibling".into(),
+                };
+                (s.class.to_string(), vpe3::backend::key_table(&s.table), s.role, prov)
+            }
+        }
+    }
+}
+
+impl<B: Cfg> DynFx for Fx<B> {
+    fn hist_len(&self) -> usize {
+        self.hist.len()
+    }
+    fn degree(&self) -> usize {
+        B::D
+    }
+    fn family(&self) -> &str {
+        &self.family
+    }
+    fn label(&self) -> String {
+        format!("{}/{} [{}]", self.cfg_name, self.family, show(&self.hist))
+    }
+
+    fn devs(&self, units: &[usize]) -> Vec<Dev> {
+        let mut v = vec![Dev::Honest];
+        for f in self.fx.enumerate(units) {
+            let keep = match &f {
+                Fault::F2 { .. } | Fault::F2Sibling { .. } | Fault::F4 { .. } => true,
+                Fault::F3 { slot, .. } => {
+                    matches!(self.fx.definers.get(*slot as usize).cloned().flatten(), Some(Definer::PublicInput))
+                }
+                Fault::F1 { table, .. } => self.fx.cellmap.tables.get(*table).map(|t| t.as_str()) == Some("public"),
+            };
+            if keep {
+                v.push(Dev::Fault(f));
+            }
+        }
+        if B::PERM_D == 1 {
+            for call in 0..self.perm_ops.len() {
+                for limb in 0..16 {
+                    v.push(Dev::Perm { call, limb });
+                }
+            }
+        }
+        v
+    }
+
+    fn eval(&self, d: &Dev) -> Eval {
+        let (class, table, role, prov) = self.site(d);
+        let mut e = Eval {
+            class,
+            table,
+            role,
+            prov,
+            status: Status::Noop,
+            j: None,
+            pred_fails: None,
+            pred_txt: String::new(),
+        };
+        // (traces to prove, private data used, cell edits, committed view)
+        let forged = match d {
+            Dev::Honest => {
+                // proved and accepted when the fixture was validated
+                e.j = self.judge(&self.fx.honest).ok();
+                e.status = Status::Proved(Verdict::Accepted);
+                e.pred_fails = Some(false);
+                return e;
+            }
+            Dev::Fault(f) => self.fx.apply(f),
+            Dev::Perm { call, limb } => {
+                PLAN.set(Some((*call, *limb, self.perm_ops.len())));
+                CALLS.set(0);
+                let r = self.fx.forge(&Deviation { adapt_publics: true, ..Deviation::none() });
+                PLAN.set(None);
+                r.map(|ex| (ex.traces.clone(), self.fx.inputs.clone(), vec![], ex.traces))
+            }
+        };
+        let (traces, inputs, edits, committed) = match forged {
+            Ok(x) => x,
+            Err(msg) => {
+                e.status = Status::Inapplicable(msg);
+                return e;
+            }
+        };
+        match self.judge(&committed) {
+            Ok(j) => e.j = Some(j),
+            Err(msg) => {
+                e.status = Status::Inapplicable(format!("oracle: {msg}"));
+                return e;
+            }
+        }
+        if edits.is_empty() && vpe3::fields::same_scalars::<B>(&traces, &self.fx.honest).is_ok() {
+            e.status = Status::Noop;
+            return e;
+        }
+        if !e.candidate() && !self.prove_all {
+            e.status = Status::ConsistentNotProved;
+            return e;
+        }
+        let verdict = self.fx.accept(&traces, &edits);
+        let pred = self.fx.predicate(&inputs, &committed);
+        e.pred_fails = Some(pred.fails());
+        e.pred_txt = match &pred {
+            vpe3::Pred::Fails(c) => format!("fails: {}", c.kind),
+            other => other.short().to_string(),
+        };
+        e.status = Status::Proved(verdict);
+        e
+    }
+
+    fn key(&self, e: &Eval) -> String {
+        let clause = e.j.as_ref().and_then(|j| j.clause).unwrap_or("-");
+        if e.class == "H" {
+            format!("unbound:{}:{clause}:honest", self.family)
+        } else {
+            format!("unbound:{}:{clause}:{}:{}:{}:{}", self.family, e.class, e.table, e.role, e.prov)
+        }
+    }
+
+    fn what(&self, d: &Dev, e: &Eval) -> String {
+        format!(
+            "{} history [{}]: deviation {} ({} {} {} carrying {}) is ACCEPTED by prove_all_tables+verify_all_tables, but {}",
+            self.cfg_name,
+            show(&self.hist),
+            d.to_json(),
+            e.class,
+            e.table,
+            e.role,
+            e.prov,
+            e.j.as_ref().map(|j| j.detail.clone()).unwrap_or_default()
+        )
+    }
+
+    fn replay_json(&self, d: &Dev) -> Value {
+        json!({"cfg": self.cfg_name, "recompose": self.rc, "coeff_ctl": self.ctl,
+               "history": show(&self.hist), "dev": d.to_json(), "seed": self.seed})
+    }
+
+    fn describe(&self) -> Value {
+        let mut d = vpe3::Case::describe(&self.fx);
+        d["history"] = json!(show(&self.hist));
+        d["family"] = json!(self.family);
+        d["permutation_rows"] = json!(self.perm_ops.len());
+        d["public_inputs"] = json!(self.roles.len());
+        d
+    }
+}
+
+// =======================================================================================
+// Configuration instances (type-erased)
+
+trait DynCfg: Send + Sync {
+    fn name(&self) -> &str;
+    fn describe(&self) -> String;
+    fn state_key(&self, hist: &[Act], seed: u64) -> Result<String, String>;
+    fn fixture(&self, hist: &[Act], seed: u64, prove_all: bool) -> Result<Box<dyn DynFx>, String>;
+}
+
+struct Inst<B: Cfg> {
+    name: String,
+    rc: bool,
+    ctl: bool,
+    _p: PhantomData<fn() -> B>,
+}
+
+impl<B: Cfg> DynCfg for Inst<B> {
+    fn name(&self) -> &str {
+        &self.name
+    }
+    fn describe(&self) -> String {
+        format!(
+            "{}: backend {} (circuit degree {}), Poseidon2 W16 table packing D={}, recompose table {}, coefficient lookups for decompose links {}",
+            self.name,
+            B::NAME,
+            B::D,
+            B::PERM_D,
+            if self.rc { "on" } else { "off" },
+            if self.ctl { "on" } else { "off" }
+        )
+    }
+    fn state_key(&self, hist: &[Act], seed: u64) -> Result<String, String> {
+        match quiet_catch(|| replay::<B>(hist, self.rc, self.ctl, seed, false)) {
+            Ok(r) => r.map(|r| r.key),
+            Err(p) => Err(format!("panic: {p}")),
+        }
+    }
+    fn fixture(&self, hist: &[Act], seed: u64, prove_all: bool) -> Result<Box<dyn DynFx>, String> {
+        match quiet_catch(|| Fx::<B>::new(&self.name, hist, self.rc, self.ctl, seed, prove_all)) {
+            Ok(r) => r.map(|f| Box::new(f) as Box<dyn DynFx>),
+            Err(p) => Err(format!("panic: {p}")),
+        }
+    }
+}
+
+fn inst<B: Cfg>(name: &str, rc: bool, ctl: bool) -> Box<dyn DynCfg> {
+    Box::new(Inst::<B> { name: name.to_string(), rc, ctl, _p: PhantomData })
+}
+
+fn all_instances() -> Vec<Box<dyn DynCfg>> {
+    vec![
+        inst::<KbD4>("kb-d4+rc", true, false),
+        inst::<KbD5>("kb-d5-base+rc+ctl", true, true),
+        inst::<KbD4>("kb-d4", false, false),
+        inst::<BbD4>("bb-d4+rc", true, false),
+        inst::<BbD4>("bb-d4", false, false),
+        inst::<KbD5>("kb-d5-base+rc", true, false),
+        inst::<KbD5>("kb-d5-base", false, false),
+    ]
+}
+
+/// BFS over the C05 automaton restricted to `depth`: the shortest history of every canonical
+/// state, in BFS order. (Equal keys ⇒ equal futures is C05's argument; here the key only
+/// selects which histories get a circuit, so a coarser or finer key changes coverage, never a
+/// verdict.)
+fn bfs_states(cfg: &dyn DynCfg, depth: usize, seed: u64) -> Result<(Vec<Vec<Act>>, usize), String> {
+    let mut seen: HashSet<String> = HashSet::new();
+    seen.insert(cfg.state_key(&[], seed)?);
+    let mut out: Vec<Vec<Act>> = vec![vec![]];
+    let mut frontier: Vec<Vec<Act>> = vec![vec![]];
+    let mut transitions = 0usize;
+    for _ in 0..depth {
+        let cands: Vec<Vec<Act>> = frontier
+            .iter()
+            .flat_map(|h| {
+                ALPHABET.iter().map(move |a| {
+                    let mut x = h.clone();
+                    x.push(*a);
+                    x
+                })
+            })
+            .collect();
+        let keys: Vec<Result<String, String>> = cands.par_iter().map(|h| cfg.state_key(h, seed)).collect();
+        let mut next = vec![];
+        for (h, k) in cands.into_iter().zip(keys) {
+            transitions += 1;
+            if seen.insert(k?) {
+                out.push(h.clone());
+                next.push(h);
+            }
+        }
+        frontier = next;
+    }
+    Ok((out, transitions))
+}
+
+// =======================================================================================
+
 fn main() {
-    eprintln!("MACHINERY-ERROR: check c06 not built yet");
-    std::process::exit(2);
+    vpcore::install_quiet_panic_hook();
+    let ctx = Ctx::from_args("C06", "fault_enumeration");
+    let report = Report::new();
+    let insts = all_instances();
+
+    // ---------------------------------------------------------------- replay of one case
+    if let Some(path) = &ctx.replay {
+        let r = vpcore::load_replay(path);
+        let name = r["cfg"].as_str().unwrap_or("").to_string();
+        let hist = r["history"]
+            .as_str()
+            .and_then(parse_hist)
+            .unwrap_or_else(|| machinery_error("replay: unreadable history"));
+        let dev = Dev::from_json(&r["dev"]).unwrap_or_else(|| machinery_error("replay: unreadable deviation"));
+        let seed = r["seed"].as_u64().unwrap_or(ctx.seed);
+        let cfg = insts
+            .iter()
+            .find(|c| c.name() == name)
+            .unwrap_or_else(|| machinery_error(&format!("replay: unknown configuration {name}")));
+        let fx = cfg
+            .fixture(&hist, seed, true)
+            .unwrap_or_else(|e| machinery_error(&format!("replay: fixture: {e}")));
+        let e = fx.eval(&dev);
+        println!("replay {} {}: {}", fx.label(), dev.to_json(), e.to_json());
+        if e.violation() {
+            report.violation(fx.key(&e), fx.what(&dev, &e), fx.replay_json(&dev));
+        }
+        let cov = json!({"evaluations": 1, "distinct_nontrivial": e.candidate() as u64,
+            "rule": "replay of one stored deviation", "samples": [e.to_json()], "replay": true});
+        finish(&ctx, cov, vec![], &report);
+    }
+
+    // ---------------------------------------------------------------- tier
+    let depth: usize = ctx
+        .opt("depth")
+        .and_then(|s| s.parse().ok())
+        .unwrap_or(if ctx.quick() { 3 } else { 5 });
+    let selected: Vec<&Box<dyn DynCfg>> = match ctx.opt("cfg") {
+        Some(o) => insts.iter().filter(|c| c.name() == o).collect(),
+        None if ctx.quick() => insts.iter().take(2).collect(),
+        None => insts.iter().collect(),
+    };
+    if selected.is_empty() {
+        machinery_error("no configuration selected");
+    }
+    let prove_all = ctx.opt("prove") == Some("all");
+
+    // states of the automaton per configuration
+    let mut per_cfg: Vec<Value> = vec![];
+    let mut plan: Vec<(usize, Vec<Act>)> = vec![]; // (cfg index, history without the final sample)
+    let mut total_states = 0usize;
+    let mut total_transitions = 0usize;
+    for (ci, cfg) in selected.iter().enumerate() {
+        let (hs, tr) = bfs_states(cfg.as_ref(), depth, ctx.seed)
+            .unwrap_or_else(|e| machinery_error(&format!("{}: automaton exploration: {e}", cfg.name())));
+        total_states += hs.len();
+        total_transitions += tr;
+        per_cfg.push(json!({"config": cfg.describe(), "automaton_states_within_depth": hs.len(),
+            "automaton_transitions_executed": tr, "depth": depth}));
+        for h in hs {
+            plan.push((ci, h));
+        }
+    }
+
+    let histo = Histo::new();
+    let samples: Mutex<Vec<Value>> = Mutex::new(vec![]);
+    let timed_out = AtomicBool::new(false);
+    let (mut evaluations, mut candidates, mut proved, mut accepted_unbound) = (0u64, 0u64, 0u64, 0u64);
+    let (mut changed_consistent, mut noops, mut inapplicable, mut crosscheck_bad) = (0u64, 0u64, 0u64, 0u64);
+    let mut histories_done = 0usize;
+    let mut histories_partial = 0usize;
+    let mut fixtures_json: Vec<Value> = vec![];
+    let mut skipped_cfg: BTreeMap<String, String> = BTreeMap::new();
+    let mut distinct_statements: HashSet<String> = HashSet::new();
+
+    // level by level (shortest histories first, all configurations interleaved): a cut by the
+    // wall-clock budget removes the longest histories, never a configuration
+    'levels: for level in 0..=depth {
+        let todo: Vec<&(usize, Vec<Act>)> = plan.iter().filter(|(_, h)| h.len() == level).collect();
+        if todo.is_empty() {
+            continue;
+        }
+        if ctx.out_of_time() {
+            timed_out.store(true, Ordering::Relaxed);
+            break 'levels;
+        }
+        let built: Vec<(usize, Vec<Act>, Result<Box<dyn DynFx>, String>)> = todo
+            .par_iter()
+            .map(|(ci, h)| {
+                let mut full = h.clone();
+                full.push(Act::Sample);
+                let fx = selected[*ci].fixture(&full, ctx.seed, prove_all);
+                (*ci, full, fx)
+            })
+            .collect();
+        let mut fxs: Vec<Box<dyn DynFx>> = vec![];
+        for (ci, h, fx) in built {
+            match fx {
+                Ok(f) => fxs.push(f),
+                Err(e) => {
+                    // A configuration whose HONEST challenger circuit does not prove is outside
+                    // C06 (completeness is C10's subject). Only tolerated for the non-default
+                    // table combinations; for the configurations every backend uses it is a
+                    // machinery error.
+                    let name = selected[ci].name().to_string();
+                    let tolerated = !matches!(name.as_str(), "kb-d4+rc" | "bb-d4+rc" | "kb-d5-base+rc+ctl");
+                    if tolerated {
+                        skipped_cfg.entry(name).or_insert_with(|| format!("[{}]: {e}", show(&h)));
+                    } else {
+                        machinery_error(&format!("fixture {name} [{}]: {e}", show(&h)));
+                    }
+                }
+            }
+        }
+        let units: Vec<Vec<usize>> = fxs
+            .iter()
+            .map(|f| if ctx.quick() || f.degree() == 1 { vec![0] } else { vec![0, f.degree() - 1] })
+            .collect();
+        // tasks in order; a work queue keeps the processing order close to the list order
+        let mut tasks: Vec<(usize, Dev)> = vec![];
+        for (i, f) in fxs.iter().enumerate() {
+            for d in f.devs(&units[i]) {
+                tasks.push((i, d));
+            }
+        }
+        let next = AtomicUsize::new(0);
+        let results: Vec<Mutex<Option<Eval>>> = (0..tasks.len()).map(|_| Mutex::new(None)).collect();
+        let nthreads = vpcore::rayon::current_num_threads().max(1);
+        (0..nthreads).into_par_iter().for_each(|_| {
+            loop {
+                let i = next.fetch_add(1, Ordering::Relaxed);
+                if i >= tasks.len() {
+                    break;
+                }
+                if ctx.out_of_time() {
+                    timed_out.store(true, Ordering::Relaxed);
+                    break;
+                }
+                let (fi, d) = &tasks[i];
+                let e = match quiet_catch(|| fxs[*fi].eval(d)) {
+                    Ok(e) => e,
+                    Err(p) => {
+                        PLAN.set(None);
+                        let mut e = fxs[*fi].eval(&Dev::Honest);
+                        e.class = "panic".into();
+                        e.j = None;
+                        e.status = Status::Inapplicable(format!("harness panic: {p}"));
+                        e
+                    }
+                };
+                *results[i].lock().unwrap() = Some(e);
+            }
+        });
+        // sequential accounting in enumeration order
+        let mut done_per_fx = vec![0usize; fxs.len()];
+        let mut total_per_fx = vec![0usize; fxs.len()];
+        for (i, (fi, d)) in tasks.iter().enumerate() {
+            total_per_fx[*fi] += 1;
+            let Some(e) = results[i].lock().unwrap().take() else { continue };
+            done_per_fx[*fi] += 1;
+            evaluations += 1;
+            let f = &fxs[*fi];
+            histo.add(&format!("{} | {} | {}", f.family(), e.class, e.outcome()));
+            match &e.status {
+                Status::Noop => noops += 1,
+                Status::Inapplicable(_) => inapplicable += 1,
+                Status::ConsistentNotProved => changed_consistent += 1,
+                Status::Proved(_) => {
+                    if e.class != "H" {
+                        proved += 1;
+                    }
+                    if !e.candidate() && e.class != "H" {
+                        changed_consistent += 1;
+                    }
+                }
+            }
+            if e.candidate() && matches!(e.status, Status::Proved(_)) {
+                candidates += 1;
+                if let Some(j) = &e.j {
+                    distinct_statements.insert(format!("{}|{}", f.label(), j.detail));
+                }
+            }
+            if e.violation() {
+                accepted_unbound += 1;
+                if e.class != "H" && e.pred_fails == Some(false) {
+                    crosscheck_bad += 1;
+                    eprintln!(
+                        "CROSS-CHECK: oracle violation but vpe3 predicate does not fail: {} {}",
+                        f.label(),
+                        d.to_json()
+                    );
+                }
+                if ctx.opt("list") == Some("accepted") {
+                    eprintln!("ACCEPTED-UNBOUND {} {} {}", f.label(), d.to_json(), f.key(&e));
+                }
+                report.violation_sized(f.key(&e), f.what(d, &e), f.replay_json(d), f.hist_len());
+            }
+            let mut s = samples.lock().unwrap();
+            let want = (e.violation() && s.len() < 6)
+                || (e.candidate() && !e.accepted() && s.iter().filter(|x| x["kind"] == "rejected").count() < 4)
+                || (matches!(e.status, Status::ConsistentNotProved)
+                    && s.iter().filter(|x| x["kind"] == "consistent").count() < 2);
+            if want && s.len() < 14 {
+                let kind = if e.violation() {
+                    "accepted-unbound"
+                } else if e.candidate() {
+                    "rejected"
+                } else {
+                    "consistent"
+                };
+                s.push(json!({"kind": kind, "case": f.label(), "deviation": d.to_json(), "result": e.to_json()}));
+            }
+        }
+        for (i, f) in fxs.iter().enumerate() {
+            if done_per_fx[i] == total_per_fx[i] {
+                histories_done += 1;
+            } else if done_per_fx[i] > 0 {
+                histories_partial += 1;
+            }
+            let mut dsc = f.describe();
+            dsc["deviations_enumerated"] = json!(total_per_fx[i]);
+            dsc["deviations_evaluated"] = json!(done_per_fx[i]);
+            if fixtures_json.len() < 400 {
+                fixtures_json.push(json!({"case": f.label(), "ops": dsc["ops"], "slots": dsc["slots"],
+                    "permutation_rows": dsc["permutation_rows"], "deviations_enumerated": total_per_fx[i],
+                    "deviations_evaluated": done_per_fx[i]}));
+            }
+        }
+        eprintln!(
+            "level {level}: {} histories, {} deviations, elapsed {:.1}s",
+            fxs.len(),
+            tasks.len(),
+            ctx.elapsed_s()
+        );
+        if timed_out.load(Ordering::Relaxed) {
+            break 'levels;
+        }
+    }
+
+    let exhaustive = !timed_out.load(Ordering::Relaxed) && skipped_cfg.is_empty();
+    println!(
+        "C06: {} configurations, {} automaton states (depth <= {depth}), {} histories fully enumerated, {} evaluations, {} unbound-challenge candidates proved, {} accepted (violations before known-finding matching), cross-check failures {}",
+        selected.len(), total_states, histories_done, evaluations, candidates, accepted_unbound, crosscheck_bad
+    );
+    let cov = json!({
+        "evaluations": evaluations,
+        "distinct_nontrivial": candidates,
+        "rule": "one evaluation = one single deviation (H honest / F2 slot with forward propagation / F4 row-local port deviation with propagation / F3 public slot in all rows without propagation / F1 Public-table cell / P permutation closure deviating on call k limb j with in-table chaining) applied to the honest traces of the circuit the real CircuitChallenger builds for one history; deviations are pairwise distinct by construction (every slot, port, cell, (call, limb) once per delta unit). Non-trivial = the deviation really changes the committed statement into an INCONSISTENT one (a committed sampled challenge differs from the native challenge of the committed observed values, or an observed base element is committed as a non-base-field value) AND the real prover+verifier decided it: a sound transcript must reject exactly these. Deviations that leave the trace unchanged (noop) or yield a consistent statement are counted separately and (unless --opt prove=all) not proved, because their verdict cannot change the oracle's answer",
+        "samples": *samples.lock().unwrap(),
+        "exhaustive": exhaustive,
+        "depth_bound": depth,
+        "alphabet": ALPHABET.iter().map(|a| a.token()).collect::<Vec<_>>(),
+        "alphabet_legend": "op observe(public base element); xp observe_ext(public extension element); s sample; sx sample_ext; b3 sample_bits(3); every history is followed by one more s",
+        "configurations": per_cfg,
+        "configurations_skipped_honest_circuit_does_not_prove": skipped_cfg,
+        "automaton_states": total_states,
+        "automaton_transitions": total_transitions,
+        "histories_planned": plan.len(),
+        "histories_fully_enumerated": histories_done,
+        "histories_partially_enumerated": histories_partial,
+        "deviations_proved_and_verified": proved,
+        "unbound_candidates_decided": candidates,
+        "unbound_candidates_accepted": accepted_unbound,
+        "distinct_inconsistent_statements": distinct_statements.len(),
+        "changed_but_consistent_statements": changed_consistent,
+        "noop_deviations_equal_to_honest": noops,
+        "inapplicable_deviations": inapplicable,
+        "oracle_violation_but_vpe3_predicate_holds": crosscheck_bad,
+        "histogram_family_class_outcome": histo.to_json(),
+        "cases": fixtures_json,
+        "delta_units": if ctx.quick() { json!([0]) } else { json!([0, "D-1"]) },
+        "oracle": "native p3_challenger::DuplexChallenger replayed on the observed values committed in the Public table; committed sampled challenge = public output / 7",
+    });
+    if crosscheck_bad > 0 {
+        eprintln!("WARNING: {crosscheck_bad} oracle violations on which vpe3's predicate holds — investigate the harness");
+    }
+    finish(
+        &ctx,
+        cov,
+        vec![
+            "STARK/LogUp soundness: 'the verifier accepts' is read as 'AIR constraints and bus hold'; a violation is only reported when the real prover+verifier really accepted the deviated trace".into(),
+            "p3-challenger 0.6.3 DuplexChallenger is the native transcript; the committed statement of a trace is its Public table (observed inputs, K·sampled outputs with K = 7)".into(),
+            "single deviations of size +1 (quick: base unit; thorough: also the top basis element); positions are enumerated, values are not; multi-deviation forgeries (e.g. rewriting all observed publics at once) are not needed to show unboundness and are not enumerated".into(),
+            "the automaton key is C05's (buffer lengths, flags, const-ness masks, capped permutation count); it only selects which histories are turned into circuits".into(),
+            "only challenger operations are in the circuit (no foreign permutation rows between two challenger permutations of the D=1 chain)".into(),
+            "F1 on permutation / recompose cells is not enumerated: with the Public table untouched the committed statement stays true, so no verdict of this oracle can change".into(),
+        ],
+        &report,
+    );
 }
